@@ -93,7 +93,8 @@ fn word(r: &mut Prng, max: usize) -> String {
 
 fn model(cfg: &SbCfg) -> Model {
     let mut r = Prng::new(mix(cfg.seed, 0x6d6f64, 0));
-    let n = cfg.n_clients.min(64) as usize;
+    // the extended format has no client limit (and its datagrams may hold more than 64 entries)
+    let n = cfg.n_clients.min(if cfg.format == 1 { 250 } else { 64 }) as usize;
     let mut clients = Vec::new();
     for k in 0..n {
         clients.push(MClient {
@@ -107,7 +108,7 @@ fn model(cfg: &SbCfg) -> Model {
         });
     }
     let num_players = clients.iter().filter(|c| c.is_player).count() as i32;
-    let max_clients = (n as i32).max(r.range(n as u64, 64) as i32);
+    let max_clients = (n as i32).max(r.range(n as u64, 64.max(n as u64)) as i32);
     Model {
         token: r.below(1 << 24) as i32,
         version: format!("0.6.{}", r.below(9)),
@@ -140,7 +141,7 @@ fn client_fields(out: &mut Vec<u8>, c: &MClient, ex: bool) {
 /// (received mask as the library computes it, client index range) of every part `build_parts` emits
 fn part_layout(cfg: &SbCfg, m: &Model) -> Vec<(u64, usize, usize)> {
     let mut out = Vec::new();
-    let chunk = cfg.chunk.clamp(1, 80) as usize;
+    let chunk = cfg.chunk.clamp(1, if cfg.format == 1 { 130 } else { 80 }) as usize;
     let n = m.clients.len();
     if cfg.format == 0 {
         let mut off = 0usize;
@@ -201,7 +202,7 @@ impl DefectModel {
 
 fn build_parts(cfg: &SbCfg, m: &Model) -> Vec<Vec<u8>> {
     let mut parts = Vec::new();
-    let chunk = cfg.chunk.clamp(1, 80) as usize;
+    let chunk = cfg.chunk.clamp(1, if cfg.format == 1 { 130 } else { 80 }) as usize;
     if cfg.format == 0 {
         let mut off = 0usize;
         loop {
@@ -434,12 +435,14 @@ impl Engine for SbEngine {
             2 => *c.pick(&[23u8, 24, 25, 47, 48, 49, 63]),
             _ => c.range(0, 64) as u8,
         };
+        let crowded = format == 1 && c.chance(1, 6);
+        let n_clients = if crowded { *c.pick(&[65u8, 66, 90, 128, 129, 200, 250]) } else { n_clients };
         let cfg = SbCfg {
             seed: c.next_u64(),
             format,
             n_clients,
-            chunk: if format == 0 { *c.pick(&[24u8, 24, 24, 24, 16, 20, 1, 7, 32, 63, 64, 65]) } else { *c.pick(&[1u8, 2, 5, 16, 24, 40, 64]) },
-            main_clients: if c.chance(1, 6) { c.range(0, 64) as u8 } else { c.range(0, 24) as u8 },
+            chunk: if format == 0 { *c.pick(&[24u8, 24, 24, 24, 16, 20, 1, 7, 32, 63, 64, 65]) } else { if crowded { *c.pick(&[16u8, 40, 63, 64, 65, 66, 90, 128]) } else { *c.pick(&[1u8, 2, 5, 16, 24, 40, 64]) } },
+            main_clients: if crowded && c.chance(1, 2) { c.range(60, 100) as u8 } else if c.chance(1, 6) { c.range(0, 64) as u8 } else { c.range(0, 24) as u8 },
             shared_names: c.chance(1, 4),
         };
         let mode = c.below(8); // 0-2: permutation only; 3-4: + loss; 5-6: + duplicates; 7: corruption
